@@ -151,7 +151,8 @@ class Pipe:
         if n <= 0:
             return 0
         net = self.net
-        self.send_log.append((net.now, self.sent, n))
+        net.gseq += 1
+        self.send_log.append((net.now, self.sent, n, net.gseq))
         off = 0
         mv = bytes(data[:n])
         for delay, ln in self.policy.plan(self, n):
@@ -236,9 +237,16 @@ class Pipe:
     def time_of_offset(self, off):
         """Virtual time at which the send carrying stream byte ``off`` was
         accepted from the sender (None if never)."""
-        for t, start, n in self.send_log:
+        for t, start, n, _ in self.send_log:
             if start <= off < start + n:
                 return t
+        return None
+
+    def seq_of_offset(self, off):
+        """Global event sequence number of the send carrying stream byte ``off``."""
+        for _, start, n, q in self.send_log:
+            if start <= off < start + n:
+                return q
         return None
 
 
@@ -508,7 +516,8 @@ class FakeSelector(selectors._BaseSelectorImpl):
             ready = self._ready()
             if ready:
                 return ready
-            if net.loop._stopping:
+            if net.loop._stopping or net.loop._ready:
+                # a network event resolved a future / scheduled a callback
                 return []
             if timeout is not None:
                 timeout = max(0.0, deadline - net.now)
@@ -553,6 +562,7 @@ class SimNet:
         self.conn_seq = 0
         self.horizon_hit = False
         self.connect_log = []     # (time, host, port, outcome)
+        self.gseq = 0             # global event sequence (orders events inside one instant)
         self.max_events = 200000
 
     # time -------------------------------------------------------------------
